@@ -211,6 +211,9 @@ def run_case(case, rep=None, count_only=False):
                 bad.append((f'{s.split(":")[0]}-with-complete-entry/{case["mode"]}', f'{s} although the entry looks '
                             f'complete: {sig}; killed at {out["fired"]}'))
         bb = b2.inst('b')
+        extra = sorted(set(os.listdir(store)) - {v.cache_key, bb.cache_key, '.gitignore'})
+        if extra:
+            bad.append(('foreign-entry-touched', f'after the kill the storage holds entries that belong to neither task: {extra}'))
         if not lab2.is_cached(bb):
             bad.append(('bystander-entry-lost', f'bystander entry gone after the kill at {out["fired"]}'))
         else:
